@@ -32,12 +32,14 @@ def gen_case(rng):
         labels, terms, matrix = pure.gen_model(rng, kind, nmax=3)
         deg = max([len(k) for k in terms] + [0])
         meths = ["to_pubo", "to_puso", "to_enumerated"] + (["to_qubo", "to_quso"] if deg <= 2 else [])
-        return {"op": "enum", "method": rng.choice(meths), "spin": spin, "kind": kind, "labels": labels, "terms": terms}
+        return {"op": "enum", "method": rng.choice(meths), "spin": spin, "kind": kind, "labels": labels, "terms": terms,
+                "set_mapping": rng.random() < 0.3, "perm_seed": rng.randint(0, 10 ** 6)}
     if t < 0.8:
         spin = rng.random() < 0.5
         kind = rng.choice([k for k in (pure.SPIN_KINDS if spin else pure.BOOL_KINDS) if k != "dict" and not k.endswith("Matrix")])
         labels, terms, matrix = pure.gen_model(rng, kind, nmax=3, allow_empty=False)
-        return {"op": "convsol", "spin": spin, "kind": kind, "labels": labels, "terms": terms}
+        return {"op": "convsol", "spin": spin, "kind": kind, "labels": labels, "terms": terms, "set_mapping": rng.random() < 0.5,
+                "perm_seed": rng.randint(0, 10 ** 6)}
     ex = rng.choice(["Q", "hJ", "q2m", "q2m", "m2q"])
     if ex == "Q":
         kind = rng.choice(["QUBO", "QUBOMatrix"])
@@ -57,6 +59,13 @@ def gen_case(rng):
                 terms[k] = rng.choice([-2, -1, 1, 2, 3])
         if not terms:
             terms[(0,)] = 1
+        if kind == "dict" and rng.random() < 0.5:
+            # a raw dict may list the same term under several keys: (i, j) and (j, i), (i,) and (i, i)
+            for k in list(terms):
+                if len(k) == 2 and rng.random() < 0.5:
+                    terms[(k[1], k[0])] = rng.choice([-1, 1, 2])
+                elif len(k) == 1 and rng.random() < 0.5:
+                    terms[(k[0], k[0])] = rng.choice([-1, 2])
         return {"op": "q2m", "spin": False, "kind": kind, "labels": labels, "terms": terms, "symmetric": rng.random() < 0.5,
                 "array": rng.random() < 0.5}
     n = rng.randint(1, 3)
@@ -87,6 +96,16 @@ def run_case(case, cid):
                 matrix = case["kind"].endswith("Matrix") or case["op"] == "q2m"
                 nm = pure.Namer(case["labels"], matrix)
                 model = cls(case["terms"])
+                if case.get("set_mapping"):
+                    # a user-chosen mapping, handed over in an insertion order that differs from the integer order
+                    import random as _r
+                    pr = _r.Random(case["perm_seed"])
+                    vs = list(model.variables)
+                    ints = list(range(len(vs)))
+                    pr.shuffle(ints)
+                    pairs = list(zip(vs, ints))
+                    pr.shuffle(pairs)
+                    model.set_mapping(dict(pairs))
                 snap = copy.deepcopy(model)
                 terms = pure.items_of(snap)
                 if case["op"] in ("b2s", "s2b"):
